@@ -93,6 +93,7 @@ func loop(ctx context.Context, v any, i int, path []string, new *any, action int
 			ret, err = loop(ctx, v[pathI], i+1, path, new, action)
 			if err == errOverwritePath {
 				v[pathI] = *new
+				ret = v // keep the rest of this level (err is cleared on return)
 
 			}
 			if err == nil {
@@ -220,6 +221,7 @@ func loop(ctx context.Context, v any, i int, path []string, new *any, action int
 			ret, err = loop(ctx, v[path[i]], i+1, path, new, action)
 			if err == errOverwritePath {
 				v[path[i]] = *new
+				ret = v // keep the rest of this level (err is cleared on return)
 
 			}
 			if err == nil {
@@ -231,6 +233,7 @@ func loop(ctx context.Context, v any, i int, path []string, new *any, action int
 			ret, err = loop(ctx, v[path[i]], i+1, path, new, action)
 			if err == errOverwritePath {
 				v[path[i]] = *new
+				ret = v // keep the rest of this level (err is cleared on return)
 
 			}
 			if err == nil {
@@ -254,7 +257,11 @@ func loop(ctx context.Context, v any, i int, path []string, new *any, action int
 			}
 
 		case nil:
-			// Let's overwrite part of the path
+			// Let's overwrite part of the path: the part that does not exist
+			// yet is created around the new value
+			for j := len(path) - 1; j >= i; j-- {
+				*new = map[string]any{path[j]: *new}
+			}
 			return nil, errOverwritePath
 
 		case string, int, float64, bool:
